@@ -686,6 +686,9 @@ def _check_translation_weights(ctx, co):
             b = ev(e.operand)
             sgn = -1 if isinstance(e.op, ast.USub) else 1
             return (b[0], None if b[1] is None else sgn * b[1], None if b[2] is None else sgn * b[2])
+        if isinstance(e, ast.BinOp) and isinstance(e.op, ast.MatMult):
+            # a @ b of two vectors is np.dot(a, b)
+            return ev(ast.Call(func=ast.Attribute(value=ast.Name(id="np", ctx=ast.Load()), attr="dot", ctx=ast.Load()), args=[e.left, e.right], keywords=[]))
         if isinstance(e, ast.BinOp):
             l, r = ev(e.left), ev(e.right)
             kind = "v" if "v" in (l[0], r[0]) else l[0]
